@@ -127,6 +127,9 @@ var profC10 = profile{
 	accts: [2]int{2, 3}, browsers: [2]int{1, 2}, middlewares: []string{"", "remember", "remember", "expire"},
 	tweak: func(t *rapid.T, c *harness.Config) {
 		c.LockAfter = rapid.IntRange(3, 6).Draw(t, "lockafter10")
+		if c.Middleware == "remember" && chance(t, "nilstate10", 35) {
+			c.NilEmptyState = true // a session store that answers nil for a browser without session
+		}
 		for i := range c.Accounts {
 			c.Accounts[i].Locked, c.Accounts[i].Unconfirmed = false, false
 		}
